@@ -5,7 +5,7 @@
    run_info.json last, DictArray.load keyed on the file), OldCode what the code did before. *)
 From Verif Require Import Base.Prelude Base.StrUtil Base.Index Base.NdArr
   Model.MapSpec Model.MapRun Model.SymBody.
-From Verif Require Import Proofs.MapResumeFacts Proofs.CrashFSFacts.
+From Verif Require Import Proofs.MapResumeFacts Proofs.MapValuesFacts Proofs.CrashFSFacts.
 From Verif Require Import Model.MapResume Model.CrashFS Model.CrashFSRef.
 
 (* ---------------------------------------------------------------- no_partial_returned *)
@@ -59,13 +59,37 @@ Theorem C05_resume_eq_uninterrupted_bounded : forall r st k1,
 Proof. exact ref_family_resume. Qed.
 Print Assumptions C05_resume_eq_uninterrupted_bounded.
 
-(* Full statement (NOT proved in general; checked on every run by crash injection into the real code, see
-   harness/props/c05.py and spec_ok of Corr/Run_C05.v):
-     forall body st p inputs user (valid request, deterministic body), forall k1 (k2),
-       o_result (snd (crash_then_resume body NewCode st p inputs user k1 k2))
-       = o_result (run_fs body NewCode st p inputs user true empty_fs)
-   The general proof needs "a run on a sub-store of the final store completes to the final store" for whole
-   pipelines (the function-level version is C06_pieces_eq_whole_func). *)
+(* General form, store level, any pipeline and any user functions: if the uninterrupted run ends with the store F,
+   then a resumed run (cleanup=False, no request) started from ANY store rs all of whose cells/values are cells/values
+   of F ends – when it completes – with exactly the outputs of F.  By C05_crash_never_partial a crashed folder of the
+   repaired protocol holds only complete files; that these complete files hold values of F (the crashed run is a
+   prefix of the uninterrupted one) is NOT proved in general: it is decided for the reference pipelines
+   (C05_resume_eq_uninterrupted_bounded) and checked by crash injection on every run. *)
+Theorem C05_resume_eq_uninterrupted_store : forall body (c : ctx) user rs psF psR,
+  (forall g f o, In g (x_p c) -> In f (x_p c) -> In o (fouts g) -> In o (fouts f) -> g = f) ->
+  all_shapes user (x_inputs c) (x_p c) = Ok (x_shapes c) ->
+  NoDup (flat_map fouts (concat (generations (x_p c)))) ->
+  order_ok [] (generations (x_p c)) ->
+  (forall g, In g (x_p c) -> In g (concat (generations (x_p c)))) ->
+  (forall f, In f (x_p c) -> is_mapped f = true -> exists ms sm, fspec f = Some ms /\ shape_of c f = Ok sm) ->
+  sized c rs ->
+  map_run_sel body (x_p c) (x_inputs c) user None empty_store = ROk psF ->
+  map_run_sel body (x_p c) (x_inputs c) user None rs = ROk psR ->
+  sub_store c rs (p_store psF) ->
+  forall f, In f (x_p c) -> same_outputs c (p_store psR) (p_store psF) f.
+Proof. exact run_on_substore_same_store. Qed.
+Print Assumptions C05_resume_eq_uninterrupted_store.
+
+Example ex_order_ok_ref1 : order_ok [] (generations (r_funcs ref1)).
+Proof.
+  vm_compute generations. cbn [order_ok app].
+  repeat split; intros h Hh g Hg o Ho Hq; cbn in Hh, Hg;
+    repeat match goal with H : _ \/ _ |- _ => destruct H | H : False |- _ => destruct H end; subst; cbn in Ho, Hq;
+    repeat match goal with H : _ \/ _ |- _ => destruct H | H : False |- _ => destruct H end; subst; try discriminate.
+Qed.
+
+(* Not proved in general: that the resumed run completes (it is proved to call only missing elements and, when it
+   completes, to end with F); that the Result.output arrays (not only the store) coincide. *)
 
 (* ---------------------------------------------------------------- resume_refuted_inplace *)
 (* What the code did before the repair (in-place writes, run_info.json first, DictArray.load keyed on the folder):
